@@ -1,1 +1,310 @@
-/-! Property theorems for C01 (statements + proofs by reference to `Proof/`). Not built yet. -/
+import GraafVerif.Proof.ReprEL
+import GraafVerif.Proof.ReprAL
+import GraafVerif.Proof.ReprW
+import GraafVerif.Proof.ReprAM
+import GraafVerif.Proof.ReprMX
+import GraafVerif.Proof.ReprMXIter
+import GraafVerif.Proof.ReprExec
+import GraafVerif.Proof.ReprReach
+import GraafVerif.Proof.ReprALIter
+/-!
+# C01 — every representation tracks the abstract digraph under any mutation history
+
+Only statements and their proofs-by-reference live here.
+
+* The mathematical digraph `(V, A, w)` and the meaning of the calls on it: `Spec/Repr.lean`
+  (`SpecState`, `specStep`, `specStepMx`, `run`).
+* The representation models: `Model/Repr.lean` (shared), their `step` / `abs`: `Model/ReprEqHist.lean`.
+* `X.WF` is the representation invariant; it holds for `empty(n)` (`…_empty`) and is
+  preserved by every call, i.e. it holds for every digraph reachable from `empty` by calls.
+  (The `From<…>` constructors assert exactly the same conditions — `u ≠ v`, `v < order` resp.
+  `v` is a key — on their input; generators and conversions are C14 / C16.)
+
+For every representation `X` the statement `Tracks` says: for EVERY well-formed start digraph
+and EVERY finite list of calls with arbitrary (valid or invalid) arguments,
+ 1. the final model state is well-formed,
+ 2. its abstraction is the state the spec reaches from the abstraction of the start,
+ 3. the outputs (`()` / `true` / `false` / panic) are the spec's outputs — in particular
+    `remove_arc` returns whether the arc was present, rejected calls panic,
+ 4. what `vertices()`, `arcs()`, `size()` show of the final state is exactly the abstract
+    digraph: every vertex / arc once, ascending (lexicographic) order, `size = |A|`, and the
+    abstract digraph is `Valid` (no self-loop, no endpoint outside `V`).
+Since the statement is for all histories it holds after every prefix, i.e. after every call.
+`…_rejects` adds that a rejected call returns the *identical* structure (not only the same
+abstraction).
+-/
+namespace GraafVerif.C01
+open GraafVerif.ReprSpec GraafVerif.Repr
+
+/-- What the read accessors must show of a state whose abstraction is `s`. -/
+def Shows {ω : Type} (s : SpecState ω) (verts : List Nat) (arcs : List (Nat × Nat)) (size : Nat) : Prop :=
+  verts.Pairwise (· < ·) ∧ (∀ x, x ∈ verts ↔ s.V x = true) ∧
+  arcs.Pairwise (fun a b => pairLt a b = true) ∧ (∀ u v, (u, v) ∈ arcs ↔ s.A u v = true) ∧
+  size = arcs.length ∧ s.Valid
+
+/-- The tracking statement for one representation. -/
+def Tracks {σ ο ω : Type} (WF : σ → Prop) (abs : σ → SpecState ω) (step : σ → ο → σ × Out)
+    (sstep : SpecState ω → ο → SpecState ω × Out)
+    (verts : σ → List Nat) (arcs : σ → List (Nat × Nat)) (size : σ → Nat) : Prop :=
+  ∀ (d : σ), WF d → ∀ ops : List ο,
+    WF (run step d ops).1 ∧
+    abs (run step d ops).1 = (run sstep (abs d) ops).1 ∧
+    (run step d ops).2 = (run sstep (abs d) ops).2 ∧
+    Shows (abs (run step d ops).1) (verts (run step d ops).1) (arcs (run step d ops).1) (size (run step d ops).1)
+
+/-- Weighted digraphs additionally show the weights. -/
+def ShowsWeights (s : SpecState Int) (arcsW : List (Nat × Nat × Int)) : Prop :=
+  arcsW.Pairwise (fun a b => pairLt (a.1, a.2.1) (b.1, b.2.1) = true) ∧
+  ∀ u v w, (u, v, w) ∈ arcsW ↔ s.W u v = some w
+
+/-- Full statement of C01. -/
+def Statement : Prop :=
+  Tracks AdjList.WF AdjList.abs AdjList.step (specStep .fixed) AdjList.vertices AdjList.arcs AdjList.size ∧
+  Tracks AdjMap.WF AdjMap.abs AdjMap.step (specStep .growing) AdjMap.vertices AdjMap.arcs AdjMap.size ∧
+  Tracks EdgeList.WF EdgeList.abs EdgeList.step (specStep .fixed) EdgeList.vertices EdgeList.arcsList EdgeList.size ∧
+  Tracks AdjListW.WF AdjListW.abs AdjListW.step (specStep .fixed) AdjListW.vertices AdjListW.arcs AdjListW.size ∧
+  (∀ d : AdjListW, d.WF → ShowsWeights d.abs d.arcsWeighted) ∧
+  Tracks AdjMatrix.WF AdjMatrix.abs AdjMatrix.step specStepMx AdjMatrix.vertices AdjMatrix.arcs AdjMatrix.size
+
+/-! ## AdjacencyList -/
+
+theorem adjList_empty {n : Nat} {d : AdjList} (h : AdjList.empty n = some d) :
+    d.WF ∧ d.abs = emptySpec Unit n := ⟨AdjList.empty_WF h, AdjList.abs_empty h⟩
+
+theorem adjList_tracks :
+    Tracks AdjList.WF AdjList.abs AdjList.step (specStep .fixed) AdjList.vertices AdjList.arcs AdjList.size := by
+  intro d h ops
+  obtain ⟨hw, ha, ho⟩ := AdjList.run_refines ops d h
+  refine ⟨hw, ha, ho, ?_⟩
+  have a := AdjList.arcs_sorted_nodup _ hw
+  exact ⟨by rw [(AdjList.vertices_spec _).1]; exact List.pairwise_lt_range, (AdjList.vertices_spec _).2,
+    a.1, a.2.2, AdjList.size_eq _, AdjList.abs_valid _ hw⟩
+
+theorem adjList_rejects (d : AdjList) (u v : Nat) (h : rejected .fixed d.abs u v = true) :
+    d.step (.add u v ()) = (d, .panic) := AdjList.step_rejects d u v h
+
+/-- The literal model of the hand-written `ArcsIterator` (`Model/ReprEqMxIter.lean`, `alDrain`)
+yields exactly `AdjList.arcs`, for every fuel above the loop variant. -/
+theorem adjList_arcs_iterator (d : AdjList) : AdjList.arcsIter d = d.arcs := AdjList.arcsIter_eq d
+
+/-! ## AdjacencyMap -/
+
+theorem adjMap_empty {n : Nat} {d : AdjMap} (h : AdjMap.empty n = some d) :
+    d.WF ∧ d.abs = emptySpec Unit n := ⟨AdjMap.empty_WF h, AdjMap.abs_empty h⟩
+
+theorem adjMap_tracks :
+    Tracks AdjMap.WF AdjMap.abs AdjMap.step (specStep .growing) AdjMap.vertices AdjMap.arcs AdjMap.size := by
+  intro d h ops
+  obtain ⟨hw, ha, ho⟩ := AdjMap.run_refines ops d h
+  refine ⟨hw, ha, ho, ?_⟩
+  have a := AdjMap.arcs_sorted_nodup _ hw
+  have v := AdjMap.vertices_spec _ hw
+  exact ⟨v.1, v.2.2, a.1, a.2.2, AdjMap.size_eq _, AdjMap.abs_valid _ hw⟩
+
+theorem adjMap_rejects (d : AdjMap) (u v : Nat) (h : rejected .growing d.abs u v = true) :
+    d.step (.add u v ()) = (d, .panic) := AdjMap.step_rejects d u v h
+
+/-! ## EdgeList -/
+
+theorem edgeList_empty {n : Nat} {d : EdgeList} (h : EdgeList.empty n = some d) :
+    d.WF ∧ d.abs = emptySpec Unit n := ⟨EdgeList.empty_WF h, EdgeList.abs_empty h⟩
+
+theorem edgeList_tracks :
+    Tracks EdgeList.WF EdgeList.abs EdgeList.step (specStep .fixed) EdgeList.vertices EdgeList.arcsList EdgeList.size := by
+  intro d h ops
+  obtain ⟨hw, ha, ho⟩ := EdgeList.run_refines ops d h
+  refine ⟨hw, ha, ho, ?_⟩
+  have a := EdgeList.arcs_sorted_nodup _ hw
+  exact ⟨by rw [(EdgeList.vertices_spec _).1]; exact List.pairwise_lt_range, (EdgeList.vertices_spec _).2,
+    a.1, a.2.2, EdgeList.size_eq _, EdgeList.abs_valid _ hw⟩
+
+theorem edgeList_rejects (d : EdgeList) (u v : Nat) (h : rejected .fixed d.abs u v = true) :
+    d.step (.add u v ()) = (d, .panic) := EdgeList.step_rejects d u v h
+
+/-! ## AdjacencyListWeighted -/
+
+theorem adjListW_empty {n : Nat} {d : AdjListW} (h : AdjListW.empty n = some d) :
+    d.WF ∧ d.abs = emptySpec Int n := ⟨AdjListW.empty_WF h, AdjListW.abs_empty h⟩
+
+theorem adjListW_tracks :
+    Tracks AdjListW.WF AdjListW.abs AdjListW.step (specStep .fixed) AdjListW.vertices AdjListW.arcs AdjListW.size := by
+  intro d h ops
+  obtain ⟨hw, ha, ho⟩ := AdjListW.run_refines ops d h
+  refine ⟨hw, ha, ho, ?_⟩
+  have a := AdjListW.arcs_sorted_nodup _ hw
+  refine ⟨by rw [(AdjListW.vertices_spec _).1]; exact List.pairwise_lt_range, (AdjListW.vertices_spec _).2,
+    a.1, a.2.2, ?_, AdjListW.abs_valid _ hw⟩
+  rw [AdjListW.size_eq]; simp [AdjListW.arcs]
+
+theorem adjListW_weights (d : AdjListW) (h : d.WF) : ShowsWeights d.abs d.arcsWeighted :=
+  ⟨(AdjListW.arcsWeighted_sorted_nodup d h).1, AdjListW.mem_arcsWeighted d h⟩
+
+theorem adjListW_rejects (d : AdjListW) (u v : Nat) (w : Int) (h : rejected .fixed d.abs u v = true) :
+    d.step (.add u v w) = (d, .panic) := AdjListW.step_rejects d u v w h
+
+/-! ## AdjacencyMatrix (with `toggle`)
+
+The theorems speak about `AdjMatrix.arcs` (set cells `< order²` in ascending cell order) and
+`AdjMatrix.size` (number of set cells).  `adjMatrix_arcs_iterator` / `adjMatrix_size_count_ones`
+connect them to the LITERAL model of the `ArcsIterator` loop (`trailing_zeros`,
+`bits &= bits - 1`, `current_base + bit`, the `cell < order²` test, the `while` condition) and of
+the `count_ones` sum (`Model/ReprEqMxIter.lean`), for every matrix, with fuel adequacy.
+Trusted there: `trailing_zeros` = index of the lowest set bit, `count_ones` = number of set bits. -/
+
+theorem adjMatrix_empty {n : Nat} {d : AdjMatrix} (h : AdjMatrix.empty n = some d) :
+    d.WF ∧ d.abs = emptySpec Unit n := ⟨AdjMatrix.empty_WF h, AdjMatrix.abs_empty h⟩
+
+theorem adjMatrix_tracks :
+    Tracks AdjMatrix.WF AdjMatrix.abs AdjMatrix.step specStepMx AdjMatrix.vertices AdjMatrix.arcs AdjMatrix.size := by
+  intro d h ops
+  obtain ⟨hw, ha, ho⟩ := AdjMatrix.run_refines ops d h
+  refine ⟨hw, ha, ho, ?_⟩
+  have a := AdjMatrix.arcs_sorted_nodup _ hw
+  exact ⟨by rw [(AdjMatrix.vertices_spec _).1]; exact List.pairwise_lt_range, (AdjMatrix.vertices_spec _).2,
+    a.1, a.2.2, AdjMatrix.size_eq _ hw, AdjMatrix.abs_valid _ hw⟩
+
+theorem adjMatrix_rejects (d : AdjMatrix) (u v : Nat) (h : rejected .fixed d.abs u v = true) :
+    d.step (.add u v) = (d, .panic) ∧ d.step (.tog u v) = (d, .panic) := AdjMatrix.step_rejects d u v h
+
+/-- The literal iterator loop yields exactly `AdjMatrix.arcs`. -/
+theorem adjMatrix_arcs_iterator (d : AdjMatrix) : AdjMatrix.arcsIter d = d.arcs := AdjMatrix.arcsIter_eq d
+
+/-- Termination of the loop: any fuel above the variant `μ` gives the same result. -/
+theorem adjMatrix_iterator_fuel (d : AdjMatrix) (s : AdjMatrix.IterState) (f₁ f₂ : Nat)
+    (h₁ : AdjMatrix.μ d s < f₁) (h₂ : AdjMatrix.μ d s < f₂) :
+    AdjMatrix.drain d f₁ s = AdjMatrix.drain d f₂ s := AdjMatrix.drain_fuel_irrelevant d s f₁ f₂ h₁ h₂
+
+/-- The `count_ones` sum is `AdjMatrix.size`. -/
+theorem adjMatrix_size_count_ones (d : AdjMatrix) : AdjMatrix.sizePop d = d.size := AdjMatrix.sizePop_eq d
+
+/-- The full statement. -/
+theorem statement : Statement :=
+  ⟨adjList_tracks, adjMap_tracks, edgeList_tracks, adjListW_tracks, adjListW_weights, adjMatrix_tracks⟩
+
+/-! ## Spec-level: what can never become observable -/
+
+/-- No self-loop and no arc with an endpoint outside `V` is ever produced by a call. -/
+theorem spec_valid_step {ω : Type} (k : Kind) (s : SpecState ω) (op : Op ω) (h : s.Valid) :
+    (specStep k s op).1.Valid := specStep_valid k s op h
+
+theorem spec_valid_step_mx (s : SpecState Unit) (op : MxOp) (h : s.Valid) :
+    (specStepMx s op).1.Valid := specStepMx_valid s op h
+
+/-- Adding is idempotent; re-adding a weighted arc replaces its weight (the last write wins). -/
+theorem spec_add_add {ω : Type} (k : Kind) (s : SpecState ω) (u v : Nat) (w w' : ω) :
+    (run (specStep k) s [.add u v w, .add u v w']).1 = (specStep k s (.add u v w')).1 := by
+  cases hrej : rejected k s u v
+  · have hrej' : rejected k (⟨grow k s.V u v, setW s.W u v (some w)⟩ : SpecState ω) u v = false := by
+      rw [rejected_eq_false] at hrej ⊢
+      refine ⟨hrej.1, ?_⟩
+      intro hk; subst hk; exact hrej.2 rfl
+    have e1 := specStep_add_ok w hrej
+    have e2 := specStep_add_ok w' hrej'
+    have e3 := specStep_add_ok w' hrej
+    simp only [run, e1, e2, e3]
+    apply SpecState.ext
+    · intro x
+      cases k with
+      | fixed => rfl
+      | growing =>
+        simp only [grow, addV]
+        cases s.V x <;> cases decide (x = v) <;> cases decide (x = u) <;> rfl
+    · intro a b; simp only [setW]; split <;> rfl
+  · have e1 := specStep_add_rej w hrej
+    have e3 := specStep_add_rej w' hrej
+    simp only [run, e1, e3]
+
+/-! ## `WF` = reachable from `empty` by calls (the quantifier "all start digraphs …")
+
+`X_empty` + `X_tracks` (1) say every digraph reachable from `empty(n)` by calls is `WF`.
+Conversely every `WF` digraph is reached by adding its own arcs to `empty(order)` — so the
+statements above, which range over `WF` digraphs, range over exactly the digraphs that
+`empty` + `add_arc(_weighted)` can build (not over a larger, possibly vacuous, class).
+`AdjacencyMap`: see `Proof/ReprReach.lean` (vertex sets not containing `0..k` need `filter_vertices`). -/
+
+theorem adjList_reachable (d : AdjList) (h : d.WF) :
+    ∃ e, AdjList.empty d.order = some e ∧ (run AdjList.step e (addOps (unitW d.arcs))).1 = d :=
+  AdjList.reachable d h
+
+theorem edgeList_reachable (d : EdgeList) (h : d.WF) :
+    ∃ e, EdgeList.empty d.order = some e ∧ (run EdgeList.step e (addOps (unitW d.arcs))).1 = d :=
+  EdgeList.reachable d h
+
+theorem adjListW_reachable (d : AdjListW) (h : d.WF) :
+    ∃ e, AdjListW.empty d.order = some e ∧ (run AdjListW.step e (addOps d.arcsWeighted)).1 = d :=
+  AdjListW.reachable d h
+
+theorem adjMatrix_reachable (d : AdjMatrix) (h : d.WF) (hfit : d.order * d.order < 2 ^ 64) :
+    ∃ e, AdjMatrix.empty d.order = some e ∧
+      (run AdjMatrix.step e ((addOps (unitW d.arcs)).map toMx)).1 = d :=
+  AdjMatrix.reachable d h hfit
+
+/-! ## The driver's failing-input oracle is this spec
+
+The PROPFAIL oracle of `repr_history` / `eq_pair` replays a history on `LSpec` (an unsorted list
+of weighted arcs, `Spec/ReprExec.lean`).  Its calls are the spec's calls: -/
+
+theorem oracle_add_weighted (s : LSpec) (u v : Nat) (w : Int) :
+    (s.put u v w).1.absW = (specStep s.kind s.absW (.add u v w)).1 ∧
+    (s.put u v w).2 = (specStep s.kind s.absW (.add u v w)).2 := LSpec.put_refinesW s u v w
+
+theorem oracle_remove_weighted (s : LSpec) (u v : Nat) :
+    (s.remove u v).1.absW = (specStep s.kind s.absW (.rem u v)).1 ∧
+    (s.remove u v).2 = (specStep s.kind s.absW (.rem u v)).2 := LSpec.remove_refinesW s u v
+
+theorem oracle_add (s : LSpec) (u v : Nat) (w : Int) :
+    (s.put u v w).1.absU = (specStep s.kind s.absU (.add u v ())).1 ∧
+    (s.put u v w).2 = (specStep s.kind s.absU (.add u v ())).2 := LSpec.put_refinesU s u v w
+
+theorem oracle_remove (s : LSpec) (u v : Nat) :
+    (s.remove u v).1.absU = (specStep s.kind s.absU (.rem u v)).1 ∧
+    (s.remove u v).2 = (specStep s.kind s.absU (.rem u v)).2 := LSpec.remove_refinesU s u v
+
+theorem oracle_toggle (s : LSpec) (hf : s.fixed = true) (u v : Nat) :
+    (s.toggle u v).1.absU = (specStepMx s.absU (.tog u v)).1 ∧
+    (s.toggle u v).2 = (specStepMx s.absU (.tog u v)).2 := LSpec.toggle_refinesU s hf u v
+
+/-! ## Non-vacuity: a 6-call history with a rejected call in the middle -/
+
+example :
+    (do let d ← AdjList.empty 3
+        pure ((run AdjList.step d
+          [.add 0 1 (), .add 1 2 (), .add 2 2 (), .rem 0 1, .rem 0 1, .add 0 1 ()]).2)) =
+      some [.unit, .unit, .panic, .bool true, .bool false, .unit] := by decide
+
+example :
+    (do let d ← AdjList.empty 3
+        pure ((run AdjList.step d
+          [.add 0 1 (), .add 1 2 (), .add 2 2 (), .rem 0 1, .rem 0 1, .add 0 1 ()]).1.arcs)) =
+      some [(0, 1), (1, 2)] := by decide
+
+example :
+    (do let d ← AdjMap.empty 2
+        pure ((run AdjMap.step d [.add 0 7 (), .add 7 7 (), .rem 0 7, .add 5 0 ()]).1.vertices)) =
+      some [0, 1, 5, 7] := by decide
+
+example :
+    (do let d ← AdjListW.empty 3
+        pure ((run AdjListW.step d [.add 0 1 4, .add 0 1 (-2), .add 0 3 1, .rem 1 0]).1.arcsWeighted)) =
+      some [(0, 1, -2)] := by decide
+
+/-- Matrix: add, toggle off, rejected toggle, toggle on, remove (true), remove (false). -/
+example :
+    (do let d ← AdjMatrix.empty 9
+        let r := run AdjMatrix.step d [.add 7 8, .tog 7 8, .tog 9 0, .tog 8 7, .rem 8 7, .rem 8 7]
+        pure (r.2, r.1.arcs, r.1.size)) =
+      some ([.unit, .unit, .panic, .unit, .bool true, .bool false], [], 0) := by decide
+
+example :
+    (do let d ← AdjMatrix.empty 9
+        pure ((run AdjMatrix.step d [.add 7 8, .tog 0 1, .add 8 7]).1.arcs)) =
+      some [(0, 1), (7, 8), (8, 7)] := by decide
+
+/-- The literal loop on a two-block matrix (cells 1, 71, 79 set). -/
+example :
+    (do let d ← AdjMatrix.empty 9
+        let d' := (run AdjMatrix.step d [.add 7 8, .tog 0 1, .add 8 7]).1
+        pure (d'.arcsIter, d'.sizePop, d'.blocks.length)) =
+      some ([(0, 1), (7, 8), (8, 7)], 3, 2) := by decide
+
+end GraafVerif.C01
